@@ -113,6 +113,10 @@ theorem OrderInv.connect {s s' : St} (hi : OrderInv s)
   · rw [hh, hnsid]; exact hi.handedLt
   · rw [hfl, hh]; exact hi.logHanded
 
+theorem OrderInv.procRel {s : St} (hi : OrderInv s) (b : Bool) (t : Nat) : OrderInv (s.procRel b t) :=
+  ⟨hi.freshLog, hi.wrNew, hi.connWr, hi.logLt, hi.logSorted, hi.made, hi.queueSorted, hi.queueLt, hi.handedSorted,
+    hi.handedLt, hi.logHanded⟩
+
 theorem finish_next (s : St) (t sid : Nat) (ok : Bool) : (s.finish t sid ok).next = s.next := by
   unfold St.finish; cases ok <;> by_cases h0 : t = 0 <;> simp [h0, St.setPc]
 theorem finish_nsid (s : St) (t sid : Nat) (ok : Bool) : (s.finish t sid ok).nsid = s.nsid := by
@@ -174,15 +178,17 @@ theorem orderInv_step (hl : cfg.sendLocked = true) (s s' : St) (a : Act) (hm : M
     have hwn : w + 1 = s.next := hi.wrNew w hw
     obtain ⟨hsid, hsh, hlogsid, hqsid⟩ := hi.made t sid hp
     have hcs : inCS (s.pc t) = true := by simp [hp, inCS]
-    have hfl : flatLogs ({ s with log := s.log.set w (s.log.get w ++ [sid]), pend := s.pend.set w (bytesOf sid) }.setPc t
-        (.writing sid w (bytesOf sid))) = flatLogs s ++ [sid] := by
-      simp only [flatLogs, St.setPc, ← hwn, List.range_succ, List.flatMap_append, List.flatMap_cons, List.flatMap_nil,
+    have hfl0 : ∀ s1 : St, s1.next = s.next → s1.log = s.log.set w (s.log.get w ++ [sid]) →
+        flatLogs s1 = flatLogs s ++ [sid] := by
+      intro s1 h1 h2
+      simp only [flatLogs, h1, h2, ← hwn, List.range_succ, List.flatMap_append, List.flatMap_cons, List.flatMap_nil,
         AMap.get_set_self, List.append_nil, List.append_assoc]
       congr 1
       apply flatMap_congr'
       intro x hx
       have : x < w := List.mem_range.mp hx
       rw [AMap.get_set_ne]; omega
+    have hfl := hfl0 _ (rfl : ({ s with log := s.log.set w (s.log.get w ++ [sid]), pend := s.pend.set w (bytesOf sid), deadline := s.deadline.set w (if cfg.rearm = true then s.now + s.timeout else s.deadline.get w) }.setPc t (.writing sid w (bytesOf sid))).next = s.next) rfl
     constructor
     · intro w' hw'
       show (s.log.set w (s.log.get w ++ [sid])).get w' = []
@@ -233,11 +239,13 @@ theorem orderInv_step (hl : cfg.sendLocked = true) (s s' : St) (a : Act) (hm : M
     exact hi.move t _ (fun t' => pc_setPc _ _ _ _) rfl rfl rfl rfl rfl rfl (Or.inl rfl) (fun _ => by simp)
   | flushOk t =>
     obtain ⟨sid, w0, w, hp, _, _, rfl⟩ := step_flushOk h
+    refine OrderInv.procRel ?_ _ _
     refine hi.move t _ (fun t' => finish_pc _ _ _ _ _) (finish_next _ _ _ _) (finish_nsid _ _ _ _)
       (finish_log _ _ _ _) (finish_queue _ _ _ _) (finish_handed _ _ _ _) (finish_wr _ _ _ _) (finish_conn _ _ _ _) ?_
     intro sid'; split <;> simp
   | flushErr t k =>
     obtain ⟨sid, w0, w, hp, _, _, rfl⟩ := step_flushErr h
+    refine OrderInv.procRel ?_ _ _
     refine hi.move t _ (fun t' => finish_pc _ _ _ _ _) (finish_next _ _ _ _) (finish_nsid _ _ _ _)
       (finish_log _ _ _ _) (finish_queue _ _ _ _) (finish_handed _ _ _ _) (finish_wr _ _ _ _) (finish_conn _ _ _ _) ?_
     intro sid'; split <;> simp
@@ -247,9 +255,10 @@ theorem orderInv_step (hl : cfg.sendLocked = true) (s s' : St) (a : Act) (hm : M
     intro sid'; split <;> simp
   | flushAfterFail =>
     obtain ⟨sid, hp, rfl⟩ := step_flushAfterFail h
+    refine OrderInv.procRel ?_ _ _
     exact hi.move 0 _ (fun t' => pc_setPc _ _ _ _) rfl rfl rfl rfl rfl rfl (Or.inl rfl) (fun _ => by simp)
   | unlock t =>
-    obtain ⟨sid, ok, hp, rfl⟩ := step_unlock h
+    obtain ⟨sid, ok, hp, _, rfl⟩ := step_unlock h
     exact hi.move t _ (fun t' => pc_setPc _ _ _ _) rfl rfl rfl rfl rfl rfl (Or.inl rfl) (fun _ => by simp)
   | enqueue t sid =>
     obtain ⟨⟨_, hq, hp, hsid, _⟩, rfl⟩ := step_enqueue h
@@ -288,7 +297,7 @@ theorem orderInv_step (hl : cfg.sendLocked = true) (s s' : St) (a : Act) (hm : M
       · simp at h1; omega
     · rw [hfl]; intro x hx; show x ∈ s.handed ++ [s.nsid]; exact List.mem_append_left _ (hi.logHanded x hx)
   | enqueueFail t sid =>
-    obtain ⟨⟨_, hq, hp, hsid⟩, rfl⟩ := step_enqueueFail h
+    obtain ⟨⟨_, hq, hp, hsid, _⟩, rfl⟩ := step_enqueueFail h
     have hfl : flatLogs { s with nsid := s.nsid + 1, results := (sid, false) :: s.results } = flatLogs s := rfl
     constructor
     · exact hi.freshLog
@@ -307,8 +316,8 @@ theorem orderInv_step (hl : cfg.sendLocked = true) (s s' : St) (a : Act) (hm : M
     · intro x hx; have := hi.handedLt x hx; show x < s.nsid + 1; omega
     · exact hi.logHanded
   | dequeue =>
-    obtain ⟨sid, q, hp, hq, rfl⟩ := step_dequeue h
-    have hfl : flatLogs ({ s with queue := q }.setPc 0 (.made sid)) = flatLogs s := rfl
+    obtain ⟨sid, q, hp, hq, _, _, rfl⟩ := step_dequeue h
+    have hfl : flatLogs ({ s with queue := q, lock := if cfg.procLocked = true then some 0 else s.lock }.setPc 0 (.made sid)) = flatLogs s := rfl
     have hsorted := hi.queueSorted
     rw [hq, List.pairwise_cons] at hsorted
     have hcs0 : ∀ t' sid', t' ≠ 0 → s.pc t' = .made sid' → False := by
@@ -317,7 +326,7 @@ theorem orderInv_step (hl : cfg.sendLocked = true) (s s' : St) (a : Act) (hm : M
         cases hu : cfg.useQueue with
         | true => rfl
         | false => have := hm.noq hu; simp [hq] at this
-      exact hne ((hm.cs t' (by simp [h', inCS])).1 huq)
+      exact hne ((hm.cs t' (by simp [h', inCS])).1 huq).1
     constructor
     · exact hi.freshLog
     · exact hi.wrNew
@@ -361,5 +370,28 @@ theorem orderInv_step (hl : cfg.sendLocked = true) (s s' : St) (a : Act) (hm : M
   | peerClose c n =>
     obtain ⟨_, rfl⟩ := step_peerClose h
     exact hi.same rfl rfl rfl rfl rfl rfl rfl (Or.inl rfl)
+  | setCapacity c =>
+    rw [step_setCapacity h]
+    exact hi.same rfl rfl rfl rfl rfl rfl rfl (Or.inl rfl)
+  | setTimeout n =>
+    rw [step_setTimeout h]
+    exact hi.same rfl rfl rfl rfl rfl rfl rfl (Or.inl rfl)
+  | tick d =>
+    rw [step_tick h]
+    exact hi.same rfl rfl rfl rfl rfl rfl rfl (Or.inl rfl)
+  | reconfClose t =>
+    obtain ⟨_, rfl⟩ := step_reconfClose h
+    exact hi.move t _ (fun t' => pc_setPc _ _ _ _) rfl rfl rfl rfl rfl rfl (Or.inr rfl) (fun _ => by simp)
+  | reconfDialOk t =>
+    obtain ⟨hp, rfl⟩ := step_reconfDialOk h
+    refine hi.connect ?_ rfl rfl rfl rfl rfl rfl
+    intro t' sid h'
+    rw [pc_setPc] at h'
+    by_cases e : t = t'
+    · rw [if_pos e] at h'; cases h'
+    · rw [if_neg e] at h'; exact h'
+  | reconfDialFail t =>
+    obtain ⟨hp, rfl⟩ := step_reconfDialFail h
+    exact hi.move t _ (fun t' => pc_setPc _ _ _ _) rfl rfl rfl rfl rfl rfl (Or.inl rfl) (fun _ => by simp)
 
 end Tcp
